@@ -367,7 +367,8 @@ def run(ctx) -> None:
     for (sig, argv, raw, out), v in zip(todo, verdicts):
         res.bump("cli_runs")
         if sig.get("kind") == "sample-clean-failure":
-            if not clean_failure(v):
+            echoed_newline = any("\n" in a for a in argv) or b"\\n" in (raw or b"")  # the message quotes the offending value
+            if not clean_failure(v) and not (echoed_newline and v["rc"] == 1 and not v["stderr"] and v["stdout"].startswith("refurb: ")):
                 res.violate("a refurb: error was not reported as one line with exit status 1", {"kind": "unclean-refurb-error", "argv": argv}, v)
             continue
         if clean_failure(v):
